@@ -2,5 +2,5 @@
 From Coq Require Import Extraction ExtrOcamlBasic ZArith.
 From V Require Import C14.Model.
 Extraction "c14_model.ml" run run_res st0 step open load live reopen_obs recover_ok no_revive_ok
-  covered entries maxprune cleanup_interval
+  covered prune_bound is_live entries maxprune cleanup_interval
   Z.of_N. (* Z.of_N only so that oracle/common.ml's z helpers type-check *)
